@@ -27,7 +27,7 @@ pub fn call(f: Expr, args: Vec<Expr>) -> Expr {
     Expr::call(f, args)
 }
 pub fn mcall(o: Expr, name: &str, args: Vec<Expr>) -> Expr {
-    Expr::MethodCall { obj: bx(o), name: name.into(), args, sugar: CallSugar::Parens }
+    Expr::MethodCall { obj: bx(o), name: name.into(), types: None, args, sugar: CallSugar::Parens }
 }
 pub fn field(o: Expr, name: &str) -> Expr {
     Expr::Field { obj: bx(o), name: name.into() }
@@ -108,7 +108,7 @@ pub fn corpus_51() -> Vec<Block> {
         Stmt::Call(call(n("setup"), vec![Expr::Table(vec![TableItem::Named("a".into(), num(1.0))])])),
         Stmt::Call(Expr::Call { f: bx(n("f")), args: vec![s("sugar")], sugar: CallSugar::Str }),
         Stmt::Call(Expr::Call { f: bx(n("f")), args: vec![Expr::Table(vec![TableItem::Pos(num(1.0))])], sugar: CallSugar::Table }),
-        Stmt::Call(Expr::MethodCall { obj: bx(n("o")), name: "m".into(), args: vec![s("x")], sugar: CallSugar::Str }),
+        Stmt::Call(Expr::MethodCall { obj: bx(n("o")), name: "m".into(), types: None, args: vec![s("x")], sugar: CallSugar::Str }),
     ]));
 
     // 3: paren heads (need `;`)
